@@ -73,3 +73,15 @@ def normalize_shape(a: int | Sequence[int], ndim: int):
     else:
         _output_shape = tuple(a)
     return _output_shape
+
+
+def normalize_max_shifts(x: float | Sequence[float]) -> tuple[float, float, float]:
+    """Normalize the `max_shifts` parameter to a 3-tuple."""
+    if hasattr(x, "__iter__"):
+        tup = tuple(float(x0) for x0 in x)  # type: ignore
+        if len(tup) != 3:
+            raise ValueError(
+                "max_shifts must be a 3-tuple if multiple values are given."
+            )
+        return tup  # type: ignore
+    return (float(x),) * 3  # type: ignore
